@@ -1,4 +1,4 @@
-\* tree T4e (fork exactly at the LIB block, built by an equivocating producer): one observer, no restart: the reorganisation at the LIB is allowed, all properties
+\* tree T4e (fork exactly at the LIB block, built by an equivocating producer): one observer, 2 restarts: the reorganisation at the LIB is allowed, all properties
 SPECIFICATION Spec
 CONSTANTS
   N = 4
@@ -6,10 +6,10 @@ CONSTANTS
   Nodes <- Obs1
   Blk0 <- T4e
   MaxBlocks = 10
-  MaxRestarts = 0
+  MaxRestarts = 2
   ByzMode = "branch"
   ByzRanges <- R123
-  Fixes <- NoFix
+  Fixes <- AllFixes
 VIEW view
 INVARIANTS TypeOK LibOnMain ConfirmsOnMain Agreement HonestConfirms
 PROPERTIES LibMonotone Final NoForkBelowLib LibQuorum RestoreEqualsRecompute
